@@ -154,7 +154,7 @@ def _candidates(plan):
                     break
             if not ok:
                 continue
-            for key in ('extra', 'refill_via', 'initial_via', 'cancel_hops', 'cancel_at', 'cancel_after', 'in_subscribe'):
+            for key in ('extra', 'refill_via', 'initial_via', 'cancel_hops', 'cancel_at', 'cancel_after', 'in_subscribe', 'cancel_in_subscribe'):
                 if holder.get(key) is not None:
                     p = copy.deepcopy(plan)
                     h = p['interactions'][i]
